@@ -47,6 +47,8 @@ type Program struct {
 	repoRoot       string
 	initVals       map[*ssa.Global]func(ex *Exec, st *State) Val
 	staleContracts []string
+	renames     map[string]map[string]string // function key -> old name -> current name (names.go)
+	renameNotes []string
 	autoDead map[string]bool // dropped inferred invariants: loopKey|label
 	autoVar  map[string]int  // which candidate variant is being tried per loop
 }
@@ -148,6 +150,7 @@ func loadProgram(root string) (*Program, error) {
 	}
 	sort.Strings(p.staleContracts)
 	p.scanGlobals()
+	p.loadRenames()
 	return p, nil
 }
 
